@@ -1150,6 +1150,18 @@ pub fn stall_task_later(name: &str, ns: u64, skip: u32) {
     }
 }
 
+/// Prefix the names of all worker tasks created so far (a cache built before the one under
+/// test: its workers must not be taken for the latter's).
+pub fn rename_workers(prefix: &str) {
+    let Some((sim, _me)) = ctx() else { return };
+    let mut st = sim.lock();
+    for t in st.tasks.iter_mut() {
+        if t.kind == Kind::Worker && !t.name.starts_with(prefix) {
+            t.name = format!("{}{}", prefix, t.name);
+        }
+    }
+}
+
 /// Jump the clock forward by `ns` at once (fault: no timer fires "on time" in between).
 pub fn jump_clock_ns(ns: u64) {
     let Some((sim, _me)) = ctx() else { return };
